@@ -5,6 +5,8 @@ Four legs, one evidence file:
   fuzz     libFuzzer (ASan+UBSan+LSan) targets fuzz_pipeline (read->run->oracle->write) and fuzz_arr (kalign())
   valgrind memcheck on the un-sanitised build over a sample of library cases (uninitialised reads)
   letter   enumerated: every letter x kind gets a defined, case-insensitive internal code (or the input is rejected)
+  sweep    enumerated: every row count 2..2100 (thorough 4200), every width 1..260, every name length 1..400 through
+           read -> finalise -> write in the three formats under the sanitizers (buffer-growth edges are exact counts)
 """
 import base64
 import json
@@ -31,7 +33,7 @@ RULE = ("cli leg: Hypothesis draws 1..3 input files (well-formed FASTA/aligned F
         "rows without an all-gap column, and for well-formed inputs satisfies the full C01 predicate; failure => non-zero status "
         "and a non-empty diagnostic. fuzz leg: libFuzzer targets with the alignment oracle inside the target, from an empty and "
         "from a seed corpus. valgrind leg: memcheck (uninitialised values, invalid accesses) over generated library cases incl. "
-        ">= 500 columns and the array API. letter leg: all 52 letters x 2 kinds enumerated. Non-trivial (cli) = the case reached "
+        ">= 500 columns and the array API. letter leg: all 52 letters x 2 kinds enumerated. sweep leg: every row count 2..2100, every width 1..260 and every name length 1..400 of a synthetic alignment through read->finalise->write(fasta, msf, clu) under ASan/UBSan/LSan (exhaustive over those ranges). Non-trivial (cli) = the case reached "
         "kalign_run (exit 0) or was rejected with a diagnostic after parsing at least one file; distinct by case hash; fuzz "
         "executions are counted separately in coverage.fuzz.")
 ASSUMPTIONS = ["byte-level inputs are bounded (fuzz 4 KiB, cli files a few KiB .. 100 KiB)",
@@ -512,6 +514,62 @@ def letter_leg(tier, seed, stats):
     return out
 
 
+# ------------------------------------------------------------------ size sweep leg (enumerated)
+
+def sweep_case(case):
+    """case: dict(leg='sweep', items=[(n rows, width, name length), ...]): synthetic alignments read -> finalised -> written
+    in all three formats inside one sanitised process per item batch"""
+    wd = runner.workdir()
+    lines = []
+    for n, w, nl in case["items"]:
+        rows = []
+        for i in range(n):
+            r = ["ACGT"[(i + c) % 4] for c in range(w)]
+            r[i % w] = "-" if w > 1 else r[0]
+            rows.append("".join(r))
+        if w > 1 and not any("-" in r for r in rows):
+            rows[0] = "-" + rows[0][1:]
+        if w == 1:
+            rows = ["A-" if i % 2 else "-A" for i in range(n)]
+        names = [("s%d_" % i + "n" * nl)[:max(nl, len("s%d" % i))] for i in range(n)]
+        fp = wd.write(formats.write_fasta(names, rows, width=60).encode("latin-1"), ".afa")
+        lines += ["read 0 1 %s" % fp, "finalise 0"] + ["write 0 %s %s" % (f, wd.path("." + f)) for f in ("fasta", "msf", "clu")] + ["free 0"]
+    pr = runner.run_probe(lines, env=runner.LEAK_ENV, cpu=300)
+    if pr.ended.bad:
+        at = len(pr.steps or []) // 6
+        item = case["items"][min(at, len(case["items"]) - 1)]
+        return {"what": "read->finalise->write x3 ended with %s at (rows, width, name length) = %s" % (pr.ended.kind, item), **pr.ended.brief()}
+    return None
+
+
+def sweep_leg(tier, seed, stats):
+    out = []
+    top = 2100 if tier == "quick" else 4200
+    items = [(n, 2, 2) for n in range(2, top + 1)] + [(3, w, 2) for w in range(1, 261)] + [(3, 70, nl) for nl in range(1, 401)] + \
+            [(n, 61, 2) for n in (16, 17, 18, 340, 341, 342, 510, 511, 512, 513)]
+    batches = []
+    cur, cost = [], 0
+    for it in items:
+        cur.append(it)
+        cost += it[0] * max(1, it[1] // 8)
+        if cost > 6000 or len(cur) >= 40:
+            batches.append(cur)
+            cur, cost = [], 0
+    if cur:
+        batches.append(cur)
+    cases_ = [{"leg": "sweep", "items": b} for b in batches]
+    with ThreadPoolExecutor(max_workers=12) as ex:
+        res = list(ex.map(sweep_case, cases_))
+    for c, r in zip(cases_, res):
+        stats.evaluations += len(c["items"])
+        stats.classes["sweep_items"] += len(c["items"])
+        if r:
+            out.append({"case": c, "detail": r, "kind": "crash"})
+    stats.nontrivial.add("sweep:%d" % len(items))
+    stats.extra["sweep"] = "rows 2..%d (width 2) + widths 1..260 (3 rows) + name lengths 1..400 + block-edge row counts, each written in 3 formats under ASan/UBSan/LSan" % top
+    return out
+
+
 # ------------------------------------------------------------------ engine glue
 
 def check(case):
@@ -533,6 +591,11 @@ def check(case):
         if r:
             return engine.violation(r)
         return engine.ok(True, ["letter_replay"], None)
+    if leg == "sweep":
+        r = sweep_case(case)
+        if r:
+            return engine.violation(r, kind="crash")
+        return engine.ok(True, ["sweep_replay"], None)
     if leg == "probe":
         # regression inputs for library-level findings: a probe script over inline files
         wd = runner.workdir()
@@ -554,6 +617,7 @@ def check(case):
 def extra(tier, seed, stats):
     out = []
     out += letter_leg(tier, seed, stats)
+    out += sweep_leg(tier, seed, stats)
     out += valgrind_leg(tier, seed, stats)
     out += fuzz_leg(tier, seed, stats)
     return out
